@@ -10,7 +10,7 @@ from xv.props.common import new_case, build_root, flush_contracts, ctxs
 
 ID = "C11"
 LEVEL = "exploration"
-N_QUICK, N_THOROUGH = 60000, 2000000
+N_QUICK, N_THOROUGH = 90000, 2000000
 T_QUICK, T_THOROUGH = 70, 1500
 CLASSES = ["index-get", "index-set", "negative-index", "length", "shape", "int-length", "string-too-long",
            "bigger-items", "non-member", "wrong-context", "offset-no-buffer", "construct-shape", "struct-with-other-length",
